@@ -64,7 +64,7 @@ var tokTypConsts = map[string]bool{"packageToken": true, "identifierToken": true
 	"delimiterToken": true, "literalToken": true, "literalRuneToken": true, "literalByteToken": true, "nullToken": true, "layoutToken": true}
 
 
-var leanTy = map[aty]string{tStr: "Str", tBool: "Bool", tInt: "Int", tDef: "Def", tFile: "FileS", tMapDef: "List (Str × Def)", tMapStr: "List (Str × Str)", tSliceStr: "List Str", tWriter: "Str", tComment: "Str", tTag: "List (Str × Str)", tCode: "Code", tSliceCode: "List Code", tMapCode: "List (Code × Code)", tTokTyp: "Go.TokTyp"}
+var leanTy = map[aty]string{tStr: "Str", tBool: "Bool", tInt: "Int", tDef: "Def", tFile: "FileS", tMapDef: "List (Str × Def)", tMapStr: "List (Str × Str)", tSliceStr: "List Str", tWriter: "Str", tComment: "Str", tTag: "List (Str × Str)", tCode: "Code", tCtx: "Option Code", tOptCode: "Option Code", tSliceCode: "List Code", tMapCode: "List (Code × Code)", tTokTyp: "Go.TokTyp"}
 
 // fields of jen.File that the registry functions may touch -> (FileS field, type)
 var fileFields = map[string]struct {
@@ -94,6 +94,11 @@ type algo struct {
 	regexes     map[string]string // local var -> pattern
 	writer      map[string]string // function -> name of its io.Writer parameter
 	inLoopBody  int
+	prevVar     string            // inside the loop of Statement.render: the variable holding the raw previous item
+	usesCtx     map[string]bool   // render function -> it looks at its context statement
+	tokSrc      map[string]string // local of type token -> the Code expression it was asserted from
+	tokOpt      map[string]string // … "O" when that expression is an Option Code
+	allowShadow bool
 }
 
 type aenv map[string]aty
@@ -308,6 +313,8 @@ func (a *algo) expr(e ast.Expr, env aenv) (string, aty) {
 				res = "false"
 			case tCode:
 				res = "(Go.isNil " + v + ")"
+			case tCtx, tOptCode:
+				res = "(Option.isNone " + v + ")"
 			default:
 				bail("comparison with nil: %s", nodeStr(x))
 			}
@@ -315,6 +322,19 @@ func (a *algo) expr(e ast.Expr, env aenv) (string, aty) {
 				res = "(!" + res + ")"
 			}
 			return res, tBool
+		}
+		if sel, ok := x.X.(*ast.SelectorExpr); ok && sel.Sel.Name == "content" && (x.Op == token.EQL || x.Op == token.NEQ) {
+			if id, ok := sel.X.(*ast.Ident); ok && env[id.Name] == tToken && a.tokSrc[id.Name] != "" {
+				lit, lt := a.expr(x.Y, env)
+				if lt != tStr {
+					bail("token content compared with a non-string")
+				}
+				res := "(Go.tokContentIs" + a.tokOpt[id.Name] + " " + a.tokSrc[id.Name] + " " + lit + ")"
+				if x.Op == token.NEQ {
+					res = "(!" + res + ")"
+				}
+				return res, tBool
+			}
 		}
 		l, lt := a.expr(x.X, env)
 		r, rt := a.expr(x.Y, env)
@@ -523,6 +543,12 @@ func (a *algo) call(x *ast.CallExpr, env aenv) (string, aty) {
 			if env[id.Name] == tTag {
 				return a.callFnRecv("tag."+sel.Sel.Name, lv(id.Name), x, env)
 			}
+			if env[id.Name] == tCtx && sel.Sel.Name == "previous" && len(x.Args) == 1 {
+				if rid, ok := x.Args[0].(*ast.Ident); ok && env[rid.Name] == tGroup {
+					// the context is passed as the answer to this very question (algo_render.go)
+					return lv(id.Name), tOptCode
+				}
+			}
 			if env[id.Name] == tGroup {
 				return a.callFnRecv("Group."+sel.Sel.Name, lv(id.Name)+" "+lv(id.Name)+"_items", x, env)
 			}
@@ -720,7 +746,7 @@ func isWriteGuard(x *ast.IfStmt) bool {
 		return false
 	}
 	rs, ok := x.Body.List[0].(*ast.ReturnStmt)
-	return ok && len(rs.Results) == 1 && nodeStr(rs.Results[0]) == errName
+	return ok && len(rs.Results) >= 1 && nodeStr(rs.Results[len(rs.Results)-1]) == errName
 }
 
 func hasReturn(n ast.Node) bool {
@@ -790,6 +816,9 @@ func assigned(list []ast.Stmt, env aenv) []string {
 			case *ast.IncDecStmt:
 				mark(x.X, loc)
 			case *ast.ExprStmt:
+				if c, ok := x.X.(*ast.CallExpr); ok && strings.Join(strings.Fields(nodeStr(c.Fun)), "") == "f.register" {
+					set["f"] = true
+				}
 				// sort.Strings(x) sorts in place
 				if c, ok := x.X.(*ast.CallExpr); ok && len(c.Args) == 1 && strings.Join(strings.Fields(nodeStr(c.Fun)), "") == "sort.Strings" {
 					mark(c.Args[0], loc)
@@ -814,6 +843,14 @@ func assigned(list []ast.Stmt, env aenv) []string {
 						for _, l := range as.Lhs {
 							if id, ok := l.(*ast.Ident); ok {
 								inner[id.Name] = true
+							}
+						}
+						// a render through the Code interface also registers imports in f
+						if c, ok := as.Rhs[0].(*ast.CallExpr); ok {
+							if sel, ok := c.Fun.(*ast.SelectorExpr); ok && (sel.Sel.Name == "render" || sel.Sel.Name == "renderItems") {
+								if id, ok := sel.X.(*ast.Ident); ok && (env[id.Name] == tCode || env[id.Name] == tGroup || env[id.Name] == tStmtRecv) {
+									set["f"] = true
+								}
 							}
 						}
 						// a write: every writer mentioned in the initialiser grows
@@ -1001,6 +1038,13 @@ func (a *algo) block(list []ast.Stmt, env aenv, tail string, noReturn bool) stri
 		}
 		return fmt.Sprintf("let %s := %s %s 1;\n", lv(id.Name), lv(id.Name), op) + cont(env)
 	case *ast.ExprStmt:
+		if c, ok := x.X.(*ast.CallExpr); ok && isRenderTarget(a.cur) && strings.Join(strings.Fields(nodeStr(c.Fun)), "") == "f.register" && len(c.Args) == 1 {
+			v, t := a.expr(c.Args[0], env)
+			if t != tStr {
+				bail("register of a non-string")
+			}
+			return fmt.Sprintf("let f : FileS := (rec.register f %s).2;\n", v) + cont(env)
+		}
 		if c, ok := x.X.(*ast.CallExpr); ok && strings.Join(strings.Fields(nodeStr(c.Fun)), "") == "sort.Strings" && len(c.Args) == 1 {
 			if id, ok := c.Args[0].(*ast.Ident); ok && env[id.Name] == tSliceStr {
 				return fmt.Sprintf("let %s : List Str := (Go.sortStrings %s);\n", lv(id.Name), lv(id.Name)) + cont(env)
@@ -1029,6 +1073,9 @@ func (a *algo) block(list []ast.Stmt, env aenv, tail string, noReturn bool) stri
 }
 
 func (a *algo) assign(x *ast.AssignStmt, env aenv, cont func(aenv) string) string {
+	if line, e2, ok := a.typeAssert(x, env); ok {
+		return line + cont(e2)
+	}
 	// regexp.MustCompile(`…`) bound to a local: remembered, emits nothing
 	if len(x.Lhs) == 1 && len(x.Rhs) == 1 && x.Tok == token.DEFINE {
 		if c, ok := x.Rhs[0].(*ast.CallExpr); ok && strings.Join(strings.Fields(nodeStr(c.Fun)), "") == "regexp.MustCompile" && len(c.Args) == 1 {
@@ -1109,7 +1156,7 @@ func (a *algo) assign(x *ast.AssignStmt, env aenv, cont func(aenv) string) strin
 		v, t := a.expr(r, env)
 		e2 := env
 		if x.Tok == token.DEFINE {
-			if _, dup := env[lt.Name]; dup {
+			if _, dup := env[lt.Name]; dup && !a.allowShadow {
 				bail("redeclaration of %s shadows an outer variable", lt.Name)
 			}
 			e2 = env.copy()
@@ -1200,7 +1247,7 @@ func (a *algo) writeStmt(x *ast.IfStmt, env aenv) (string, bool) {
 	if strings.Join(strings.Fields(nodeStr(x.Cond)), "") != errName+"!=nil" {
 		return "", false
 	}
-	if rs, ok := x.Body.List[0].(*ast.ReturnStmt); !ok || len(rs.Results) != 1 || nodeStr(rs.Results[0]) != errName {
+	if rs, ok := x.Body.List[0].(*ast.ReturnStmt); !ok || len(rs.Results) < 1 || nodeStr(rs.Results[len(rs.Results)-1]) != errName {
 		return "", false
 	}
 	call, ok := as.Rhs[0].(*ast.CallExpr)
@@ -1368,7 +1415,7 @@ func (a *algo) ifStmt(x *ast.IfStmt, rest []ast.Stmt, env aenv, tail string, noR
 		return pre + "if " + c + " then (\n" + th + ")\nelse (\n" + el + ")"
 	}
 	if hasReturn(x.Body) || (x.Else != nil && hasReturn(x.Else)) {
-		bail("partial return in an if statement")
+		bail("partial return in an if statement: %s", strings.Join(strings.Fields(nodeStr(x)), " "))
 	}
 	all := append(append([]ast.Stmt{}, x.Body.List...), els...)
 	vars := assigned(all, ienv)
@@ -1624,10 +1671,16 @@ func (a *algo) translate(key string) {
 				a.failed[key] = u.why
 				return
 			}
-			panic(r)
+			// an AST shape the translator did not anticipate: the function is untranslated,
+			// the check goes on with the behavioural tie
+			a.failed[key] = fmt.Sprintf("unexpected syntax (%v)", r)
 		}
 	}()
 	a.cur, a.regexes = key, map[string]string{}
+	if isRenderTarget(key) {
+		a.translateRender(key)
+		return
+	}
 	env := aenv{}
 	var params []string
 	if d.Recv != nil && len(d.Recv.List) == 1 {
@@ -1756,11 +1809,13 @@ var algoTargets = []string{".IsReservedWord", "File.isLocal", "File.isValidAlias
 	// text-producing functions without recursion through Code (tie 1b, second group)
 	"comment.render", "tag.isNull", "tag.render", "File.renderImports",
 	// null-ness (open recursion through the Code interface: `recNull`)
-	"token.isNull", "comment.isNull", "Group.isNullItems", "Group.isNull", "Statement.isNull", "Dict.isNull"}
+	"token.isNull", "comment.isNull", "Group.isNullItems", "Group.isNull", "Statement.isNull", "Dict.isNull",
+	// the render methods of Statement and Group (algo_render.go)
+	"Statement.render", "Group.renderItems", "Group.render"}
 
 func translateAlgorithms(fns []fn, reservedVar, stdVar string) (lean string, summary string) {
 	a := &algo{fns: map[string]*ast.FuncDecl{}, reservedVar: reservedVar, stdVar: stdVar, mutates: map[string]bool{}, needsFuel: map[string]bool{}, needsLib: map[string]bool{}, needsRec: map[string]bool{},
-		retTy: map[string]aty{}, out: map[string]string{}, failed: map[string]string{}, inProgress: map[string]bool{}, regexes: map[string]string{}, writer: map[string]string{}}
+		retTy: map[string]aty{}, out: map[string]string{}, failed: map[string]string{}, inProgress: map[string]bool{}, regexes: map[string]string{}, writer: map[string]string{}, usesCtx: map[string]bool{}, tokSrc: map[string]string{}, tokOpt: map[string]string{}}
 	for _, f := range fns {
 		a.fns[f.recv+"."+f.name] = f.decl
 	}
